@@ -492,6 +492,11 @@ def sub_map(rng, n, choice=None):
     return rng.integers(1, 5, size=n).astype(np.int64), "per_pixel"
 
 
+def zlib_crc(key):
+    import zlib
+    return zlib.crc32(str(key).encode())
+
+
 # ------------------------------------------------------------------------------ cases
 def run_case(ctx, key, m, rng, fam, ssz, subname, full=True):
     if not ctx.begin(key):
@@ -499,13 +504,18 @@ def run_case(ctx, key, m, rng, fam, ssz, subname, full=True):
     aa = ctx.aa
     n = int((~m).sum())
     geometry = gen.mild_scales_origin(rng)
+    far = full and (zlib_crc(key) % 6 == 0)
+    if far:
+        # small pixels very far from the coordinate origin: coordinates ~1e6, neighbouring border points 0.01 .. 0.05 apart
+        geometry = ((float(rng.uniform(0.01, 0.05)), float(rng.uniform(0.01, 0.05))),
+                    (float(rng.choice([-1, 1]) * rng.uniform(1e6, 2e6)), float(rng.choice([-1, 1]) * rng.uniform(1e6, 2e6))))
     mask = aa.Mask2D(mask=m.copy(), pixel_scales=geometry[0], origin=geometry[1])
     uniform = subname.startswith("uniform")
     sub = int(ssz[0]) if (uniform and rng.random() < 0.5) else aa.Array2D(values=ssz.copy(), mask=mask)
     starts, pos = sub_layout(m, ssz)
     image_grid = to_scaled(pos, m.shape, geometry[0], geometry[1])
     br = aa.BorderRelocator(mask=mask, sub_size=sub)
-    cls = ["mask:" + fam, "sub:" + subname, "sub_passed_as_int" if isinstance(sub, int) else "sub_passed_as_array"]
+    cls = ["mask:" + fam, "sub:" + subname, "sub_passed_as_int" if isinstance(sub, int) else "sub_passed_as_array"] + (["far_origin_small_pixels"] if far else [])
     ring = np.ones(m.shape, bool)
     ring[1:-1, 1:-1] = False
     if (~m & ring).any():
